@@ -26,7 +26,7 @@ ASSUMPTIONS = [
     "integrated priors are compared with tanh-sinh quadrature (mpmath, 30 digits) of exp(library log density) x hyper-prior density over log precision / log size; compared at 1e-8 relative",
     "the library's non-integrated constant coalescent is anchored to the exact Kingman reference of C08 in the same run",
 ]
-BUDGET = {"quick": 80, "thorough": 800}
+BUDGET = {"quick": 80, "thorough": 1800}
 ROUNDS = {"thorough": 8}
 FLOORS = {"grid_point_on_a_coalescent_time": {"quick": 20, "thorough": 200}, "reparameterised_trees": {"quick": 20, "thorough": 200}, "batched_tree_checks": {"quick": 8, "thorough": 80}, "after_tree_change_checks": {"quick": 100, "thorough": 1000}, "batched_heights": {"quick": 30, "thorough": 300}, "quadratic_form_checks": {"quick": 300, "thorough": 3000}, "quadrature_checks": {"quick": 100, "thorough": 800},
           "statistics_checks": {"quick": 250, "thorough": 2500}, "variants": 4}
